@@ -33,6 +33,10 @@ CLAIMS = {
   text="first half of the property (basic types): every function literal that Universe.addBasicTypeMethodsCTI installs for method M of basic kind K (279 literals: Equal, Cmp, Less, Add, Sub, Mul, Quo, Rem, Neg, And, AndNot, Or, Xor, Not, Lsh, Rsh, Real, Imag, Index, Len, Slice x 17 kinds) is proved to return the Go operator / builtin of that name on the same operands, evaluated in K by Go's rules (wrap-around, IEEE, shift counts), for all operand values, and to have no effect; a literal without a clause, or a clause without a literal, fails",
   note="trusted: go/ssa front end, SMT solvers, machine arithmetic as specified by Go; strings are an uninterpreted model (Index/Slice/Len compared through the same indexing function). Not covered: container methods through reflection (cti_method.go), method resolution in the compiler, signatures in go/types/cti_method.go",
   ref="DESIGN.md section 0.1, section 5 C34"),
+ "C07": dict(
+  text="thin: the bookkeeping rule behind recover, for all states: callRecover is honoured exactly when it is called directly by a deferred function (Defer flag) of the function that is panicking (DeferOfFun == PanicFun != nil) - then it consumes the panic (Panic and PanicFun cleared); otherwise it returns nil and leaves the panic untouched ('does not stop the panic'); pushDefer marks a function as the panicking one only while panicking and popDefer restores the enclosing deferred-call context; maybeRepanic lets the panic go on exactly when no deferred call recovered it",
+  note="trusted: go/ssa front end, SMT solvers, reflect accessor specifications, Debugf prints only. Not covered: order of deferred calls, results, escaping panics for whole programs (compositions of the executor), Comp.Defer, the recovered value when not nil",
+  ref="DESIGN.md section 0.1, section 5 C07"),
  "C15": dict(
   text="thin: only the mechanism the property names for functions: a function (or macro) declaration that fails to compile - any panic, from any point after the signature was computed - leaves the name bound to exactly what it was bound to when DeclFunc was entered (the previous function, or nothing), whatever the failed compilation did in between; proved over every panic exit of Comp.DeclFunc with its deferred restore",
   note="trusted: go/ssa front end, SMT solvers, Comp.TypeFunction declares nothing in the enclosing scope, the contract of NewBind (verified under C14). Not covered: variables, constants, types (no roll-back exists: finding F12, hand-confirmed, recorded in DESIGN.md, not derived), methods and generic functions, compile-before-run, type redefinition",
